@@ -32,7 +32,7 @@ ASSUMPTIONS = [
 FLOORS = {
     'quick': {'programs': 6000, 'both_accepted': 12000, 'setting:ignorecase': 1200, 'setting:nameguard_off': 1200,
               'setting:whitespace': 1200, 'setting:parseinfo': 1200, 'sem:tagging': 2000, 'sem:identity': 2000,
-              'kwlike_names': 400, 'pyconst_tokens': 400, 'long_names': 600, 'includes_or_based_rules': 500, 'reused_instance_parses': 20000, 'with_params': 400, 'with_directives': 1200},
+              'kwlike_names': 400, 'pyconst_tokens': 400, 'long_names': 600, 'includes_or_based_rules': 500, 'reused_instance_parses': 20000, 'with_params': 400, 'with_directives': 1200, 'assoc_joins': 150},
     'thorough': {'programs': 100000, 'both_accepted': 200000},
 }
 N = {'quick': 9600, 'thorough': 160000}
@@ -75,6 +75,7 @@ def pcanon(v):
 def gen_case(rng):
     F = dict(G.FEATURES)
     F['cut'] = rng.random() < 0.3
+    F['assoc'] = rng.random() < 0.35   # the documented s<{e}+ / s>{e}+ joins
     pats = dict(G.PATS)
     hostile = rng.random() < 0.25
     if hostile:
@@ -144,6 +145,8 @@ def gen_case(rng):
             if rng.random() < 0.5:
                 r.decorators = ('name',)
         features.add('with_keywords')
+    if any(isinstance(x, L.Join) and x.assoc for r in g.rules for x in L.walk(r.body)):
+        features.add('assoc_joins')
     return g, features, saved
 
 
